@@ -210,6 +210,10 @@ def witness_events(w, kind, t_override=None):
         T = t_override
     ev = [("S", "p"), ("D", "VISpre"), ("E", "p")]
     rho = None
+    # a remembered tag outside any region is what an earlier, already closed region leaves behind
+    for f, v in sorted((w.get("self") or {}).items()):
+        if "tag" in f.lower() and isinstance(v, str) and not on and v in REMOVE and v not in VOID:
+            ev += [("S", v), ("D", "HIDold"), ("E", v)]
     if on:
         if not (T in REMOVE and T not in VOID) or n < 0 or n > 6:
             return None
@@ -299,6 +303,7 @@ def grammar():
             docs.append(f"<p>VISa</p><{r}>HIDa<{r2}>HIDb</{r2}>HIDc</{r}><p>VISb</p>")
             docs.append(f"<p>VISa</p><{r}><{r2}/>HIDa</{r}><p>VISb</p>")
             docs.append(f"<p>VISa</p><{r}><{r2}>HIDa</{r}><p>VISb</p>")
+            docs.append(f"<p>VISa</p><{r}>HIDa</{r}><p>VISb</p><{r2}>HIDb</{r2}><p>VISc</p>")
         docs.append(f"<p>VISa</p><{r}/><p>VISb</p>")
         docs.append(f"<p>VISa</p><{r} src=x></{r}><p>VISb</p>")
         for c1, c2 in itertools.product(contents[:9], repeat=2):
